@@ -46,6 +46,7 @@ def draw_cfg(ch, base=None):
         "submods": ch.rint(1, 3, "submods"),  # weight of module targets
         "compat_bundles": ch.chance(1, 4),
         "pr_through_expr": True,  # port references to ports wired to slices / concats
+        "fan": ch.weighted([(2, 0), (1, 1), (1, 2)], "fan"),  # several bundle ports of one type per module, re-used sources
     }
     if base:
         cfg.update(base)
@@ -68,6 +69,7 @@ class ModCtx:
         self.referenced = set()  # (iname, port) referenced by a live port reference
         self.implicit = set()  # ports left unconnected on purpose
         self.assigned = {}  # (iname, port) -> X
+        self.last_bundle = {}  # iname -> bundle instance most recently connected to it
 
     @property
     def m(self):
@@ -138,7 +140,11 @@ class Gen:
             self.new_sig(mc, ch.rint(1, cfg["max_width"], "pw"), port=True)
         for _ in range(ch.rint(0, 2, "nsigs")):
             self.new_sig(mc, ch.rint(1, cfg["max_width"], "sw"), port=False)
-        if self.bids and ch.chance(1, 2):
+        if self.bids and cfg["fan"]:
+            fb = ch.pick(self.bids, "fanbid")
+            for _ in range(ch.rint(2, 3, "nfan")):
+                self.new_bun(mc, fb, port=True)
+        elif self.bids and ch.chance(1, 2):
             self.new_bun(mc, ch.pick(self.bids, "pbid"), port=True)
         if self.bids and ch.chance(1, 2):
             self.new_bun(mc, ch.pick(self.bids, "ibid"), port=False)
@@ -437,9 +443,18 @@ class Gen:
             return ["d", members]
         # a bundle instance of this module
         cands = [bname for bname, (b2, _p, _f) in mc.m.buns.items() if self._bundle_ok(b2, bid)]
+        if cands and cfg["fan"] and ch.chance(cfg["fan"], 3):
+            # fan: the bundle most recently used on this very instance, again
+            last = mc.last_bundle.get(me[0])
+            if last in cands:
+                return ["b", last]
         if cands and ch.chance(3, 4):
-            return ["b", ch.pick(cands, "bname")]
-        return ["b", self.new_bun(mc, bid)]
+            nm = ch.pick(cands, "bname")
+            mc.last_bundle[me[0]] = nm
+            return ["b", nm]
+        nm = self.new_bun(mc, bid)
+        mc.last_bundle[me[0]] = nm
+        return ["b", nm]
 
     def _bundle_ok(self, have, want):
         if have == want:
